@@ -347,6 +347,26 @@ class LabelAccess(BoundedCheck):
             except Exception as ex:  # noqa: BLE001
                 bad('obj[name, a:b:s] = v writes exactly those positions', f'c10.set-slice-raises:{type(ex).__name__}', (a, b, step), 'stored', repr(ex)[:80])
         # absent labels
+        # variables named like members of the container class (`size` is a property, `copy` a method): item access addresses the series all the same
+        e = fresh()
+        for nm, base_ in (('size', 100.0), ('copy', 200.0), ('values', 300.0)):
+            try:
+                e.add_variable(nm, [base_ + i for i in range(n)])
+            except Exception:  # noqa: BLE001 - a name the container refuses is not part of this clause
+                continue
+            res.evaluations += 1
+            try:
+                whole = e[nm]
+                one = e[nm, labels[0]] if labels[0] is not None else base_
+                ok = isinstance(whole, np.ndarray) and whole.tolist() == [base_ + i for i in range(n)] and float(one) == base_
+                if ok and labels[0] is not None:
+                    e[nm, labels[0]] = -7.0
+                    ok = float(e[nm][0]) == -7.0 and float(e.__dict__['_' + nm][0]) == -7.0
+            except Exception as ex:  # noqa: BLE001
+                ok, whole = False, repr(ex)[:60]
+            if not ok:
+                bad('obj[name] and obj[name, label] address the series of that name (whatever else the name means on the class)', f'c10.member-named-variable:{nm}', nm, 'the series',
+                    repr(whole)[:60])
         # absent labels, including hashable containers: a tuple is one label (it must not be matched element by element against the span)
         tuple_absent = [('__absent__', 1), (labels[0],), tuple(['__x__'] + [x for x in labels[1:]])]
         tuple_absent = [x for x in tuple_absent if all(not (isinstance(lab, tuple) and lab == x) for lab in labels)]
